@@ -3,10 +3,10 @@
    Statements only; proofs in Proofs.IsoBitsProofs.  The claim is about chython/algorithms/_isomorphism.pyx AS SOURCE
    (run through a transpiler by the check; the compiled extension cannot be built here). *)
 From Coq Require Import ZArith List Bool String.
-From Model Require Import PyBase PeriodicTable IsoBits IsoBitsExt IsoBitsPyx IsoBitsFuel.
+From Model Require Import PyBase PeriodicTable IsoBits IsoBitsExt IsoBitsPyx IsoBitsFuel IsoBitsDict.
 From Model Require Iso.
-From Gen Require Import Elements IsoClosure IsoGuard.
-From Proofs Require Import IsoBitsProofs IsoBitsSearchProofs IsoBitsExtProofs IsoClosureTie IsoBitsPyxProofs IsoBitsFuelProofs IsoGuardTie.
+From Gen Require Import Elements IsoClosure IsoGuard IsoCand IsoRefCand IsoDescend IsoYield IsoInit.
+From Proofs Require Import IsoBitsProofs IsoBitsSearchProofs IsoBitsExtProofs IsoClosureTie IsoBitsPyxProofs IsoBitsFuelProofs IsoGuardTie IsoCandTie IsoBitsRangeProofs IsoRefCandTie IsoDescendTie IsoYieldTie IsoInitTie.
 Import ListNotations.
 Open Scope Z_scope.
 
@@ -316,6 +316,124 @@ Theorem C09_source_offsets_example :
 Proof. exact g_offsets_example. Qed.
 Print Assumptions C09_source_offsets_example.
 
+(* THE CANDIDATE BLOCK OF THE .pyx LOOP, regenerated statement by statement by tools/gen_isocand.py into Gen.IsoCand.g_cand_body
+   (lines `if q_atom.closure:` ... `else:` ... of _isomorphism.pyx: fill the closures scratch array and count, compare the count,
+   look every query closure up, break / else, push, null the array; the no-closure scan): for a neighbour record that passes the
+   mask test it IS pyx_cand of the array-level model - exactly one push or none, the same closures array afterwards - for all
+   inputs; together with g_next_test (Gen.IsoClosure) the whole body of the neighbour loop for one record comes from the source.
+   Through C09_pyx_search_refines / C09_pyx_search_equiv the equivalence theorems therefore speak about these lines as they are
+   written now. *)
+Theorem C09_source_candidate_block_is_model : forall qu mo scope front path matched base i_bond closures,
+  let m := bt_index i_bond in
+  let qa := q_atom qu (Z.of_nat front) in
+  znth scope m false && negb (aget matched m false) && mask_match_next (qa_mask qa) (bt_bond i_bond) (ma_bits (m_atom mo m)) = true ->
+  g_cand_body qu mo front path matched base m closures =
+  (Z.b2z (fst (pyx_cand qu mo scope front path matched base i_bond closures)),
+   snd (pyx_cand qu mo scope front path matched base i_bond closures)).
+Proof. exact g_cand_body_is_model. Qed.
+Print Assumptions C09_source_candidate_block_is_model.
+
+Theorem C09_source_neighbour_loop_body_is_model : forall qu mo scope front path matched base i_bond closures,
+  let m := bt_index i_bond in
+  pyx_cand qu mo scope front path matched base i_bond closures =
+  if g_next_test (znth scope m false) (aget matched m false) (qa_mask (q_atom qu (Z.of_nat front))) (bt_bond i_bond) (ma_bits (m_atom mo m))
+  then (fst (g_cand_body qu mo front path matched base m closures) =? 1, snd (g_cand_body qu mo front path matched base m closures))
+  else (false, closures).
+Proof. exact pyx_cand_from_source. Qed.
+Print Assumptions C09_source_neighbour_loop_body_is_model.
+
+(* non-vacuity: candidate 0 of a triangle whose other two atoms are matched, one closure expected: one push, array nulled - also
+   when the array held a stale entry; no push for a query atom without closures *)
+Theorem C09_source_candidate_block_example :
+  let mo := mkMolT [mkMA b4zero 0 2 1; mkMA b4zero 2 4 2; mkMA b4zero 4 6 3]
+                   [mkBT 7 1; mkBT 7 2; mkBT 7 0; mkBT 7 2; mkBT 7 0; mkBT 7 1] in
+  let qu := mkQueryT [mkQA b4zero 0 0 0 0 1; mkQA b4zero 0 0 0 0 2; mkQA b4zero 1 1 0 1 3] [mkBT 7 0] in
+  g_cand_body qu mo 2 [1; 2] [false; true; true] 2 0 [0; 0; 0] = (1, [0; 0; 0]) /\
+  g_cand_body qu mo 2 [1; 2] [false; true; true] 2 0 [0; 5; 0] = (1, [0; 0; 0]) /\
+  g_cand_body qu mo 1 [1; 2] [false; true; true] 2 0 [0; 0; 0] = (0, [0; 0; 0]).
+Proof. exact g_cand_body_example. Qed.
+Print Assumptions C09_source_candidate_block_example.
+
+(* THE DESCEND BLOCK OF THE .pyx LOOP, regenerated statement by statement by tools/gen_isodescend.py into Gen.IsoDescend.g_descend
+   (the else-branch of `if depth == q_decrement:` up to the load of n_atom: `if path_size != depth:` unmark the dead end, mark and
+   append the popped atom, front, load the next query atom, branch back).  It works on the C state: the path ARRAY and path_size.
+   On every C state that represents the model state (the model's path = the first path_size cells of the array; depth <= path_size,
+   as the loop guarantees; the array has room for cell `depth`; the back reference of the next query atom points to an earlier depth)
+   it computes the model's flags (unmark, then mark n), an array whose first depth + 1 cells are the model's new path,
+   path_size = depth + 1, and the same atom whose records are scanned next - the corresponding step of pyx_dfs. *)
+Theorem C09_source_descend_block_refines : forall qu matched parr path depth n,
+  firstn (List.length path) parr = path -> (depth <= List.length path)%nat -> (depth < List.length parr)%nat ->
+  let qa := q_atom qu (Z.of_nat (S depth)) in
+  0 <= qa_back qa <= Z.of_nat depth ->
+  let path' := firstn depth path ++ [n] in
+  exists parr',
+    g_descend qu matched parr (Z.of_nat (List.length path)) (Z.of_nat depth) n =
+      (aset (unmark matched path depth) n true, parr', Z.of_nat (S depth),
+       if negb (qa_back qa =? Z.of_nat depth) then znth path' (qa_back qa) 0 else n) /\
+    firstn (S depth) parr' = path' /\ List.length parr' = List.length parr.
+Proof. exact g_descend_refines. Qed.
+Print Assumptions C09_source_descend_block_refines.
+
+(* non-vacuity: a dead end (path [4; 2; 7], popped (9, depth 1): 2 and 7 unmarked, 9 marked and stored in cell 1, the next query atom
+   branches back to depth 0 -> atom 4 is scanned), and the same step without a dead end *)
+Theorem C09_source_descend_block_example :
+  let qu := mkQueryT [mkQA b4zero 0 0 0 0 1; mkQA b4zero 0 0 0 0 2; mkQA b4zero 0 0 0 0 3; mkQA b4zero 2 0 0 0 4] [] in
+  g_descend qu [false; false; true; false; true; false; false; true; false; false] [4; 2; 7] 3 1 9 =
+    ([false; false; false; false; true; false; false; false; false; true], [4; 9; 7], 2, 4) /\
+  g_descend qu [false; false; false; false; true; false; false; false; false; false] [4; 2; 7] 1 1 9 =
+    ([false; false; false; false; true; false; false; false; false; true], [4; 9; 7], 2, 4).
+Proof. exact g_descend_example. Qed.
+Print Assumptions C09_source_descend_block_example.
+
+(* THE YIELD BLOCK OF THE .pyx LOOP, regenerated statement by statement by tools/gen_isoyield.py into Gen.IsoYield.g_yield (body of
+   `if depth == q_decrement:`: a fresh dict, `mapping[query.atoms[i].mapping] = molecule.atoms[path[i]].mapping` over range(depth), the
+   store for the popped atom, yield; dset = the Python dict store).  On a path array whose first `depth` cells are the model's path
+   it builds exactly mask_mapping - the dictionary the equivalence theorems compare with the reference one - provided the query atom
+   numbers are distinct (they are the keys of the query's atom dict). *)
+Theorem C09_source_yield_block_is_model : forall qu mo parr path depth n,
+  firstn depth parr = firstn depth path -> (depth <= List.length parr)%nat -> (depth <= List.length path)%nat ->
+  (depth < List.length (qu_atoms qu))%nat ->
+  NoDup (firstn (S depth) (map qa_mapping (qu_atoms qu))) ->
+  g_yield qu mo parr (Z.of_nat depth) n = mask_mapping qu mo (firstn depth path ++ [n]).
+Proof. exact g_yield_is_model. Qed.
+Print Assumptions C09_source_yield_block_is_model.
+
+Theorem C09_source_yield_block_example :
+  let qu := mkQueryT [mkQA b4zero 0 0 0 0 5; mkQA b4zero 0 0 0 0 3; mkQA b4zero 1 0 0 0 9] [] in
+  let mo := mkMolT [mkMA b4zero 0 0 10; mkMA b4zero 0 0 20; mkMA b4zero 0 0 30] [] in
+  g_yield qu mo [2; 0] 2 1 = [(5, 30); (3, 10); (9, 20)] /\ mask_mapping qu mo [2; 0; 1] = [(5, 30); (3, 10); (9, 20)].
+Proof. exact g_yield_example. Qed.
+Print Assumptions C09_source_yield_block_example.
+
+(* THE FIRST-ATOM LOOP OF THE .pyx (tools/gen_isoinit.py -> Gen.IsoInit.g_init_stack: `for n in range(molecule.atoms_count)` as a fold, its
+   `if` = g_first_test of Gen.IsoClosure, the three push statements = a cons of (n, 0); the translator also checks the three pop
+   statements at the top of `while stack:`): it leaves init_stack of the model - the atoms passing the first-atom test, last one on
+   top, depth 0. *)
+Theorem C09_source_first_atom_loop_is_model : forall qu mo scope,
+  g_init_stack qu mo scope (zlen (mo_atoms mo)) =
+  map (fun e => (fst e, Z.of_nat (snd e))) (init_stack (zlen (mo_atoms mo)) (mask_first qu mo scope)).
+Proof. exact g_init_stack_is_model. Qed.
+Print Assumptions C09_source_first_atom_loop_is_model.
+
+(* THE CANDIDATE BLOCK OF THE REFERENCE MATCHER, regenerated statement by statement by tools/gen_isorefcand.py into
+   Gen.IsoRefCand.g_ref_cand_body (isomorphism.py:_get_mapping, body of `for o_n, o_bond in o_bonds[n].items():` - scope / not yet
+   matched / bond test, atom test, closure set of the candidate, comparison with the closure partners, bond test of every closure,
+   push): it pushes once exactly when ref_cand of the model holds, for all inputs.  ref_cand is the candidate test of ref_search, the
+   reference side of every equivalence theorem above. *)
+Theorem C09_source_reference_candidate_block_is_model : forall rq rm scope front path base e,
+  g_ref_cand_body rq rm scope front path base e = Z.b2z (ref_cand rq rm scope front path base e).
+Proof. exact g_ref_cand_body_is_model. Qed.
+Print Assumptions C09_source_reference_candidate_block_is_model.
+
+(* non-vacuity: third atom of a triangle query on cyclopropane: closure found -> one push; wrong closure bond order or outside the
+   scope -> none *)
+Theorem C09_source_reference_candidate_block_example :
+  g_ref_cand_body (t_rq 1) t_rm [true; true; true] 2 [0; 1] 1 (2, mkLB 1 true) = 1 /\
+  g_ref_cand_body (t_rq 2) t_rm [true; true; true] 2 [0; 1] 1 (2, mkLB 1 true) = 0 /\
+  g_ref_cand_body (t_rq 1) t_rm [true; true; false] 2 [0; 1] 1 (2, mkLB 1 true) = 0.
+Proof. exact g_ref_cand_body_example. Qed.
+Print Assumptions C09_source_reference_candidate_block_example.
+
 (* FUEL.  The Python / C loops have no iteration counter; the Gallina loops count iterations with `fuel` and return None when it
    is used up.  dfs_fuel_bound N D last = 1 + N * (number of nodes of the complete D-ary tree of height last) iterations always
    suffice (N atoms, at most D neighbour records per atom, last = query atoms - 1): the searches TERMINATE, on any buffers / any
@@ -357,7 +475,8 @@ Print Assumptions C09_component_call_fuel_monotone.
 
 Theorem C09_component_call_fuel_irrelevant : forall cython rq rm scope f1 f2,
   (component_fuel rq rm <= f1)%nat -> (component_fuel rq rm <= f2)%nat ->
-  component_mappings cython rq rm scope f1 = component_mappings cython rq rm scope f2 /  component_mappings cython rq rm scope f1 <> None.
+  component_mappings cython rq rm scope f1 = component_mappings cython rq rm scope f2 /\
+  component_mappings cython rq rm scope f1 <> None.
 Proof. exact component_mappings_fuel_irrelevant. Qed.
 Print Assumptions C09_component_call_fuel_irrelevant.
 
@@ -393,3 +512,25 @@ Theorem C09_fuel_examples :
   public_fuel ex2_comps ex2_rm = 4%nat.
 Proof. exact fuel_examples. Qed.
 Print Assumptions C09_fuel_examples.
+
+(* THE RING-SIZE HYPOTHESIS IS NECESSARY (known finding ring-size-above-65).  The equivalence theorems assume ring sizes 3..65 on both
+   sides.  Outside, the statement is FALSE for the faithful model of the current code: both encoders drop ring sizes above 65 and encode
+   "only such sizes" as ring-free.  Witnesses inside every other hypothesis; replayed on the real code:
+   smarts('[C;r66]') on smiles('CCC'): 3 mappings accelerated, none with _cython=False. *)
+Theorem C09_ring_size_above_65_refuted :
+  query_ok (QElem 6 None (no_x [0])) = true /\ atom_ok (set_rings c_ring66 [65]) = true /\ elem_hyp (QElem 6 None (no_x [0])) 6 /\
+  match_atom (QElem 6 None (no_x [0])) c_ring66 = false /\
+  mask_match_first (enc_qatom (QElem 6 None (no_x [0])) None) (enc_atom c_ring66) = true /\
+  query_ok (QElem 6 None (no_x [65])) = true /\ atom_ok c_chain = true /\
+  match_atom (QElem 6 None (no_x [66])) c_chain = false /\
+  mask_match_first (enc_qatom (QElem 6 None (no_x [66])) None) (enc_atom c_chain) = true /\
+  atom_ok (set_rings c_ring6_70 [6; 65]) = true /\
+  match_atom (QElem 6 None (no_x [70])) c_ring6_70 = true /\
+  mask_match_first (enc_qatom (QElem 6 None (no_x [70])) None) (enc_atom c_ring6_70) = false /\
+  let rq := [mkRQ 1 0 (QElem 6 None (no_x [0])) None []] in
+  let rm := [mkRA 1 (set_rings (mkLA 6 None 0 false 0 1 (Some 4) 0 []) [66]) []] in
+  has_unknown_h rm = false /\ wf_queryb rq = true /\ in_range_pairb rq rm = true /\
+  wf_molb [mkRA 1 (set_rings (mkLA 6 None 0 false 0 1 (Some 4) 0 []) [65]) []] = true /\
+  component_mappings true rq rm [true] 10 = Some [[(1, 1)]] /\ component_mappings false rq rm [true] 10 = Some [].
+Proof. exact ring_size_above_65_refuted. Qed.
+Print Assumptions C09_ring_size_above_65_refuted.
